@@ -3,7 +3,11 @@
 use crate::core::*;
 use crate::props::{c01, Meta};
 use crate::subject;
+use oq3_semantics::semantic_error::SemanticErrorList;
+use oq3_semantics::syntax_to_semantics::parse_source_string;
+use oq3_source_file::{SourceFile, SourceTrait};
 use oq3_syntax::SyntaxError;
+use std::collections::HashSet;
 
 pub fn meta() -> Meta {
     Meta {
@@ -63,6 +67,105 @@ pub fn oracle(text: &str, ctx: &mut Ctx) {
     }
 }
 
+/// Semantic part: every semantic diagnostic's range is the range of a node of the tree of the
+/// file its list is tagged with, lies inside that text and on character boundaries.
+fn check_list(list: &SemanticErrorList, text: &str, nodes: &HashSet<(usize, usize)>, included: &[SourceFile], issues: &mut Vec<String>, ndiag: &mut usize) {
+    for e in list.iter() {
+        *ndiag += 1;
+        let r = e.range();
+        let (s, t) = (usize::from(r.start()), usize::from(r.end()));
+        if s > t || t > text.len() {
+            issues.push(format!("{:?} has range {}..{} outside the text of {} bytes", e.kind(), s, t, text.len()));
+        } else if !text.is_char_boundary(s) || !text.is_char_boundary(t) {
+            issues.push(format!("{:?} has range {}..{} not on character boundaries", e.kind(), s, t));
+        } else if !nodes.contains(&(s, t)) {
+            issues.push(format!("{:?} has range {}..{} (`{}`) which is not the range of any node of the file's tree", e.kind(), s, t, show(&text[s..t])));
+        }
+    }
+    // the lists of included files pair up with the included sources in order
+    for (k, inc) in list.include_errors().iter().enumerate() {
+        if let Some(sf) = included.get(k) {
+            if let Some(ast) = sf.syntax_ast() {
+                if ast.have_parse() {
+                    let root = ast.syntax_node();
+                    let t = root.text().to_string();
+                    let ns: HashSet<(usize, usize)> = root.descendants().map(|n| (usize::from(n.text_range().start()), usize::from(n.text_range().end()))).collect();
+                    check_list(inc, &t, &ns, sf.included(), issues, ndiag);
+                }
+            }
+        }
+    }
+}
+
+pub fn semantic_oracle(text: &str, ctx: &mut Ctx) {
+    let t2 = text.to_string();
+    let r = catch(move || {
+        let res = parse_source_string(t2.as_str(), None);
+        if res.any_syntax_errors() {
+            return None;
+        }
+        let src = res.syntax_result();
+        let ast = src.syntax_ast()?;
+        let root = ast.syntax_node();
+        let nodes: HashSet<(usize, usize)> = root.descendants().map(|n| (usize::from(n.text_range().start()), usize::from(n.text_range().end()))).collect();
+        let mut issues = Vec::new();
+        let mut ndiag = 0usize;
+        check_list(res.semantic_errors(), &t2, &nodes, src.included(), &mut issues, &mut ndiag);
+        Some((issues, ndiag))
+    });
+    match r {
+        Err(_) => ctx.count("skipped_analysis_panics", 1),
+        Ok(None) => ctx.count("skipped_syntax_diagnostics", 1),
+        Ok(Some((issues, ndiag))) => {
+            ctx.outcome(fnv_mix(0x5e, ndiag.min(6) as u64));
+            if ndiag >= 1 {
+                ctx.mark_nontrivial(fnv_str(text));
+            }
+            for i in issues {
+                let what = i.split(' ').next().unwrap_or("").to_string();
+                ctx.fail_text("semantic_span", text, &what, i);
+            }
+        }
+    }
+}
+
+fn scope_history_texts(family: usize, max_len: usize) -> Vec<String> {
+    use crate::props::c07::{render, Op, N_QUICK_OPS, OPS};
+    fn rec(hist: &mut Vec<Op>, family: usize, max_len: usize, out: &mut Vec<String>) {
+        if hist.len() >= max_len {
+            return;
+        }
+        for op in &OPS[..N_QUICK_OPS] {
+            hist.push(*op);
+            if let Some(r) = render(hist, family) {
+                out.push(format!("// ψ 😀 non-ASCII prefix\n{}", r.text));
+                rec(hist, family, max_len, out);
+            }
+            hist.pop();
+        }
+    }
+    let mut out = Vec::new();
+    rec(&mut Vec::new(), family, max_len, &mut out);
+    out
+}
+
 pub fn spaces(tier: Tier, _seed: u64) -> Vec<Box<dyn Space>> {
-    c01::text_spaces(tier, oracle)
+    let mut v = c01::text_spaces(tier, oracle);
+    // semantic diagnostics: rule-violation programs and scope histories, with non-ASCII
+    // identifiers, strings and comments so that byte offsets differ from character offsets
+    let pre = format!("/* ψ😀 */ int é变 = 1; bit[4] ça = \"0101\";\n{}", crate::props::c13::prelude());
+    let mut texts: Vec<String> = Vec::new();
+    for s in crate::props::c13::other_sites() {
+        texts.push(format!("{}{}\né变 = nosuch_é;\n", pre, s.text));
+    }
+    for s in crate::props::c13::gate_sites().into_iter().filter(|s| !s.expect.is_empty()).step_by(if tier.is_thorough() { 1 } else { 23 }) {
+        texts.push(format!("{}{}\n", pre, s.text));
+    }
+    for (_, t) in crate::props::c03::wider_texts() {
+        texts.push(format!("{}{}\n", pre, t));
+    }
+    v.push(crate::space::TextSpace::list("SEMA/rule-violations+wider", texts, 64, semantic_oracle));
+    v.push(crate::space::TextSpace::list("SEMA/scope-histories/unicode", scope_history_texts(3, if tier.is_thorough() { 4 } else { 3 }), 256, semantic_oracle));
+    v.push(crate::space::TextSpace::list("SEMA/scope-histories/user", scope_history_texts(0, if tier.is_thorough() { 4 } else { 3 }), 256, semantic_oracle));
+    v
 }
